@@ -3,3 +3,5 @@ import JrsVerif.Props.C01
 #print axioms JrsVerif.Bind.parseCall_assignment
 #print axioms JrsVerif.Bind.parseCall_ok_iff
 #print axioms JrsVerif.Bind.call_style_invariant
+#print axioms JrsVerif.EvalBind.interpreter_binding_ok_iff
+#print axioms JrsVerif.EvalBind.interpreter_binding_assignment
